@@ -556,6 +556,74 @@ func proxyScenario(x *explore.X) {
 	}
 }
 
+// lateHeaderScenario (round 9): through the complete proxy, a client delivers only a part of its header (nothing, half,
+// all but the last octet) and stalls. "Only that connection fails": a well-formed client that connects meanwhile is
+// accepted, its header is parsed and its request reaches the origin WITHOUT any virtual time passing; the stalled
+// connection is closed no later than the header timeout, and nothing of it reaches the origin.
+func lateHeaderScenario(x *explore.X) {
+	cases := headerCases()
+	hc := cases[x.ChooseFree("header", len(cases))]
+	part := x.ChooseFree("octets-delivered-before-the-stall", 3)
+	n := []int{0, len(hc.raw) / 2, len(hc.raw) - 1}[part]
+	if hc.exp.v != valid || n < 0 {
+		x.Outcome("inadmissible")
+		return
+	}
+	w, err := world.Start(world.Options{ProxyProtocol: true, ProxyProtoTO: headerTO})
+	if err != nil {
+		x.Failf("harness/start", "%v", err)
+		return
+	}
+	org, _ := w.Hop("origin.test:80", nil)
+	c, _ := w.Client()
+	req := "GET http://origin.test/ HTTP/1.1\r\nHost: origin.test\r\n\r\n"
+	if n > 0 {
+		c.Send(hc.raw[:n])
+	}
+	what := fmt.Sprintf("a client stalled after %d of the %d octets of header %s", n, len(hc.raw), hc.name)
+	t0 := time.Now()
+	p, err := w.Client()
+	if err != nil {
+		x.Failf("probe/connect", "%s: a new client cannot connect: %v", what, err)
+		return
+	}
+	p.Send([]byte("PROXY TCP4 203.0.113.9 198.51.100.1 1234 3128\r\n" + req))
+	msgs, conns, _ := org.Next()
+	if d := time.Since(t0); len(msgs) != 1 || d != 0 {
+		// how long does it take, if it is served at all?
+		for i := 0; i < 40 && len(msgs) == 0; i++ {
+			world.Settle(time.Second)
+			msgs, conns, _ = org.Next()
+		}
+		x.Failf("other-connection-delayed", "%s: a well-formed client connecting meanwhile had its request at the origin after %v of virtual time (served: %v), want 0s", what, time.Since(t0), len(msgs) == 1)
+		return
+	}
+	if xff := strings.Join(msgs[0].Get("X-Forwarded-For"), ","); xff != "203.0.113.9" {
+		x.Failf("wrong-address", "%s: the other client's request carries X-Forwarded-For %q, want 203.0.113.9", what, xff)
+	}
+	org.Conns[conns[0]].Send([]byte("HTTP/1.1 200 OK\r\nContent-Length: 2\r\n\r\nok"))
+	if rs := httpwire.ParseResponses(p.Recv(), []string{"GET"}, false); len(rs.Msgs) != 1 {
+		x.Failf("probe/not-answered", "%s: the other client got %q", what, world.Clip(p.Recv()))
+	}
+	p.Close()
+	world.Settle(headerTO + time.Millisecond)
+	if st := c.C.Status(); !st.PeerClosed && !st.Reset {
+		x.Failf("late-header-not-cut-off", "%s: still open %v after it connected (header timeout %v)", what, time.Since(t0), headerTO)
+	}
+	if m, _, _ := org.Next(); len(m) != 0 {
+		x.Failf("stalled-connection-served", "%s: the origin received a request from it", what)
+	}
+	x.Outcome(fmt.Sprintf("part%d", part))
+	c.Close()
+	if err := w.Stop(); err != nil {
+		x.Failf("shutdown", "%v", err)
+	}
+	org.Close()
+	if l := world.Leaks(); l != "" {
+		x.Failf("goroutine-leak", "%s", l)
+	}
+}
+
 func TestC08(t *testing.T) {
 	s := explore.NewSuite(t, "C08", "model_checking",
 		"(parser) every header of a 70+ case alphabet (v1 TCP4/TCP6 with minimal..maximal addresses and ports, UNKNOWN bare and 107-byte, over-long lines, bad ports/addresses/signature; v2 every command nibble class x family/protocol byte x lengths 0 / exact / +TLV / 2048 / 2049, wrong version, wrong signature, non-header prefixes) x payload(4) x EVERY segmentation into 2 (quick) / 3 (thorough) segments at all cut positions plus byte-wise delivery, through the real proxyproto.Listener (with connfu) on the simulated network; (stall) every header x EVERY stall offset inside the header with the virtual clock moved to timeout-1ms / +1ms, the bytes before the stall delivered at once or in two parts 0.6 time-outs apart; (several) 2-3 connections with v2/v1 IPv6 and IPv4 headers (with and without TLVs) accepted by one listener and all kept open, addresses and payload of each re-read after the others were parsed, in both orders; (proxy) every header through the complete proxy with a PROXY-protocol listener: X-Forwarded-For at the origin, then a well-formed probe client; an independent grammar of the PROXY protocol specification classifies each header as valid / invalid / receiver's choice and gives the addresses; states = quiescent states after each delivered segment")
@@ -566,6 +634,7 @@ func TestC08(t *testing.T) {
 	s.Add(explore.Scenario{Name: "parser-quick", Remote: true, Tiers: []string{"quick"}, MaxDev: map[string]int{"quick": 1}, Run: run(func(x *explore.X) { parserScenario(x, 1, false) })})
 	s.Add(explore.Scenario{Name: "parser-thorough", Remote: true, Tiers: []string{"thorough"}, MaxDev: map[string]int{"thorough": 2}, Run: run(func(x *explore.X) { parserScenario(x, 2, false) })})
 	s.Add(explore.Scenario{Name: "stall", Remote: true, MaxDev: map[string]int{"quick": 0, "thorough": 0}, Run: run(func(x *explore.X) { parserScenario(x, 0, true) })})
+	s.Add(explore.Scenario{Name: "late-header-through-the-proxy", Remote: true, Run: run(lateHeaderScenario)})
 	s.Add(explore.Scenario{Name: "several-connections", Remote: true, Run: run(multiConnScenario)})
 	s.Add(explore.Scenario{Name: "through-proxy", Remote: true, Run: run(proxyScenario)})
 	s.Add(explore.Scenario{Name: "concurrent-callers-quick", Remote: true, Tiers: []string{"quick"}, MaxDev: map[string]int{"quick": 2},
